@@ -171,8 +171,10 @@ Fixpoint expected_names (t : item) (inh : option str) : list (option str) :=
          match l with [] => [] | c :: l' => expected_names c (pass_down t inh) ++ go l' end) ops
   end.
 
-(* no named element is an operand of an operation (or +) of its own class — such an element is
-   spliced into its parent by simplify_if_same and its name is never looked at (F16) *)
+(* no named element is an operand of an operation (or +) of its own class — before the repair of F16 such
+   an element was spliced into its parent by simplify_if_same and its name was never looked at.  The
+   repaired code keeps it; the predicate is only used by the corollaries C06_*_partial (the statements of
+   earlier rounds) and by the regression examples. *)
 Definition named (t : item) : bool := match name_of t with Some (_ :: _) => true | _ => false end.
 Fixpoint no_named_flattened (t : item) : bool :=
   match t with
